@@ -37,6 +37,10 @@ type outcome struct {
 	Gauge    float64       `json:"gauge,omitempty"`    // family runend: the listener's gauge of active connections after Run returned (polled for 3 s)
 	HaveGauge bool         `json:"have_gauge,omitempty"`
 	SignalAt time.Duration `json:"signal_at,omitempty"` // family runend: when a signal of the configured set was first sent
+	// family runend with scripted Close latencies (rig a): the proxy's side of the sockets at the instant Run returned
+	HaveTrack bool  `json:"have_track,omitempty"`
+	OpenAt    []int `json:"open_at_ret,omitempty"`    // accepted sockets on which the proxy had not called Close (order of acceptance)
+	BusyAt    []int `json:"closing_at_ret,omitempty"` // … on which its Close had begun and not returned
 	shutCalls int
 }
 
@@ -168,6 +172,10 @@ func runCase(c *Case) (*outcome, error) {
 	case c.Kind == "a":
 		select {
 		case e := <-cr.hp.Done():
+			if cr.tracker != nil {
+				out.OpenAt, out.BusyAt, _ = cr.tracker.state()
+				out.HaveTrack = true
+			}
 			cr.log.Add("XR", 0)
 			close(runDone)
 			out.Result = fmt.Sprintf("run:%v", e)
@@ -420,6 +428,15 @@ func evaluate(ctx *core.Ctx, c *Case, out *outcome) {
 		if !out.HaveGauge {
 			ctx.Disagree("the listener's gauge of active connections can be read from the proxy's registry", doc, "not found", "listener_cx_active")
 		}
+		if out.HaveTrack {
+			ctx.Count("runend/" + c.End + "/" + c.closeLabel())
+			if c.End == "drain" && find(out.History, "D") == nil && (len(out.OpenAt) > 0 || len(out.BusyAt) > 0) {
+				// the drain ended by itself: Run returned because its Shutdown reported success
+				ctx.SpecFail("Shutdown reports success only once every connection that was being served has been closed", "", doc, h,
+					fmt.Sprintf("Run returned %v after the cancellation, the drain having ended by itself (shutdown timeout %v); at that moment the proxy had not called Close on accepted sockets %v (order of acceptance) and its Close of %v had begun and not returned",
+						out.RetAt-out.CallAt, timeout, out.OpenAt, out.BusyAt))
+			}
+		}
 		if c.End == "signal" && out.SignalAt > 0 && out.RetAt > out.SignalAt+8*time.Second {
 			ctx.SpecFail("Shutdown otherwise returns the context's error", "", doc, h,
 				fmt.Sprintf("the second shutdown signal was sent %v after the cancellation (and every 25 ms from then on); Run returned only %v after it", out.SignalAt-out.CallAt, out.RetAt-out.SignalAt))
@@ -520,6 +537,9 @@ func Run(ctx *core.Ctx) {
 		"plus control-call HISTORIES: on rig b 1-4 calls over {Shutdown(short ctx), Shutdown(long), Shutdown(no deadline), Shutdown(cancelled by its caller), Close}, one after " +
 		"the other or overlapping, against connections in flight at the origin / idle keep-alive / in a tunnel / with a half-sent head that drain late or never, every call judged " +
 		"(nil => every accepted socket already closed by the proxy; error => the call's own ctx.Err(), not before that context was done), a last Close and a last Shutdown appended; " +
+		"the listener of these cases wraps every accepted connection and scripts how long the proxy's Close of it takes {returns at once, 50-400 ms, 650-900 ms (longer than Shutdown's longest polling interval)} and, " +
+		"on TLS listeners, peers that do not take their close_notify (the record waits 650-1200 ms below crypto/tls): a nil is judged at the instant of the return — the Close of every served socket has COMPLETED, not merely begun " +
+		"(crossed with plain / TLS / stalled TLS under histories that end in a success for certain; on rig a in the drains of Run that end by themselves, plain listeners); " +
 		"on rig a the drain of Run ended by a second shutdown signal (SIGUSR1 to the child process), by the shutdown timeout, or by itself, with connections that do not drain: " +
 		"after Run returned every accepted socket closed, the listener's active-connections gauge 0, nothing served any more; " +
 		"plus the signal matrix on rigs a and s: configured ShutdownSignals {none, {SIGUSR1}, {SIGUSR1, SIGUSR2}} x signals delivered to the hosting process during the drain " +
@@ -602,6 +622,11 @@ func Run(ctx *core.Ctx) {
 	}
 	for i := 0; i < ctx.N(6, 48); i++ {
 		send("runend", genServerSig(ctx.Rng.Sub(), i))
+	}
+	// the Close-latency cross (ctl.go genCtlClose; drawn after everything else): {Close returns at once, 50-400 ms,
+	// 650-900 ms} x {plain, TLS, TLS with peers that do not take their close_notify} under histories that end in a success
+	for j := 0; j < ctx.N(9, 162); j++ {
+		send("ctl", genCtlClose(ctx.Rng.Sub(), j))
 	}
 	for _, c := range micro {
 		send("micro", c)
